@@ -185,7 +185,8 @@ impl Gen {
         v
     }
     fn key(&self) -> (usize, usize, u16, bool, usize) {
-        (self.r.hbf % 2, self.r.page, self.r.trig_no, self.r.is_open(), self.pending.len())
+        // the position in the CDW calibration series (period 4) is folded into the last component
+        (self.r.hbf % 2, self.r.page, self.r.trig_no, self.r.is_open(), self.pending.len() * 4 + self.r.cdw_no as usize)
     }
 }
 
